@@ -1,6 +1,7 @@
 mod util;
 mod rawdb_suite;
 mod vec_suite;
+mod import_suite;
 
 use util::*;
 
@@ -24,6 +25,7 @@ fn main() {
             let rep = rawdb_suite::run(arg(&args, "--depth", 3usize), arg(&args, "--random-secs", 5u64), arg(&args, "--random-depth", 12usize), seed, thorough, threads);
             println!("{}", rep.to_json());
         }
+        "import" => { println!("{}", import_suite::run().to_json()); }
         "vecpages" => {
             unsafe { std::env::set_var("RAC_PAGE_ALPHABET", "1"); }
             let fmt: String = arg(&args, "--format", "pco".to_string());
